@@ -13,13 +13,13 @@ package c18
 
 import (
 	"context"
-	"runtime"
-	"sync/atomic"
 	"encoding/binary"
 	"errors"
 	"fmt"
+	"runtime"
 	"sort"
 	"sync"
+	"sync/atomic"
 	"testing"
 	"testing/synctest"
 
@@ -211,6 +211,7 @@ type shapeSpec struct {
 	Shape  []int
 	PruneR int // >= 0: the --prune-mode flag is toggled between process starts, retaining PruneR blocks; -1: never enabled
 	Pruned int // blocks below are absent (statedifflength's pruned prefix); blocktransactions part is then already migrated
+	L1Lag  int // the recorded L1 head lags the tip by this many blocks (the prune pivot is min(L1 head, height))
 }
 
 func mkShape(n int, pat string) []int {
@@ -248,31 +249,32 @@ type bCtx struct {
 	fin map[[32]byte]int
 }
 
-// cutoff: the block below which the history-prune migration deletes (pivot = min(L1 head, height) = tip here).
+// cutoff: the block below which the history-prune migration deletes: pivot - retained with pivot = min(L1 head, height);
+// nothing when the pivot is below the retention window.
 func (sp shapeSpec) cutoff() int {
-	tip := len(sp.Shape) - 1
-	if sp.PruneR < 0 || tip < sp.PruneR {
+	pivot := len(sp.Shape) - 1 - sp.L1Lag
+	if sp.PruneR < 0 || pivot < sp.PruneR {
 		return 0
 	}
-	return tip - sp.PruneR
+	return pivot - sp.PruneR
 }
 
 // Prune classes of a chain's final image.
 const (
-	clsNone   = "no-prune"     // --prune-mode never recorded
+	clsNone   = "no-prune"      // --prune-mode never recorded
 	clsPruned = "pruned-with-R" // history pruned below cutoff() (the shape's retained value R)
-	clsNoop   = "no-op-prune"  // prune applied with a retention window longer than the chain: nothing deleted
+	clsNoop   = "no-op-prune"   // prune applied with a retention window longer than the chain: nothing deleted
 )
 
 // pruneInfo: what an image says about the history-prune migration.
 type pruneInfo struct {
-	recorded bool // LastTargetVersion has bit 1
-	done     bool // applied bit 1
-	token    bool // a historyprunner intermediate-state token (cutoff pinned) is stored
-	pinned   int  // the cutoff in the token
-	started  bool // its first commit happened: blocks below the cutoff deleted, reverse lookups wiped
-	lower    int  // blocks below may legitimately be gone
-	relax    bool // by-hash lookups may legitimately be missing (wiped at its start, rebuilt at its end)
+	recorded bool   // LastTargetVersion has bit 1
+	done     bool   // applied bit 1
+	token    bool   // a historyprunner intermediate-state token (cutoff pinned) is stored
+	pinned   int    // the cutoff in the token
+	started  bool   // its first commit happened: blocks below the cutoff deleted, reverse lookups wiped
+	lower    int    // blocks below may legitimately be gone
+	relax    bool   // by-hash lookups may legitimately be missing (wiped at its start, rebuilt at its end)
 	class    string // of an image with the bit applied (or never recorded)
 }
 
@@ -481,7 +483,9 @@ func exploreShapeGroup(bc *bCtx, specs []shapeSpec, permsL0, permsDeep [][4]int,
 	r, t := bc.r, bc.t
 	var shapes []*bShape
 	for _, sp := range specs {
-		sh := &bShape{r: r, sp: sp, c: mkChain(sp.Shape), seen: map[[32]byte]uint8{}, refFinal: map[string][32]byte{}, stripped: map[string][32]byte{}}
+		ch := mkChain(sp.Shape)
+		ch.l1lag = sp.L1Lag
+		sh := &bShape{r: r, sp: sp, c: ch, seen: map[[32]byte]uint8{}, refFinal: map[string][32]byte{}, stripped: map[string][32]byte{}}
 		base := sh.c.oldLayoutDB(0)
 		if sp.Pruned > 0 {
 			// A pruned database cannot be in the per-transaction layout (pruning came later). Build it from the
@@ -613,7 +617,7 @@ func exploreItem(bc *bCtx, it bItem, maxDepth int, failInj bool) {
 			// the database there; the same failure after graceful cancellations only keeps its own key and is reported
 			key = "b/restart-fails: historyprunner cannot resume after a crash or failed commit in its restore phase (history or scratch already wiped, progress only persisted on graceful cancel)"
 		}
-		r.Violate(key, map[string]any{"interruptions_before": historyKinds(st.trace),"shape": sp.Name, "tx_per_block": sp.Shape, "trace": tr, "newRunnerErr": fmt.Sprint(o.newErr), "runErr": fmt.Sprint(o.runErr)})
+		r.Violate(key, map[string]any{"interruptions_before": historyKinds(st.trace), "shape": sp.Name, "tx_per_block": sp.Shape, "trace": tr, "newRunnerErr": fmt.Sprint(o.newErr), "runErr": fmt.Sprint(o.runErr)})
 		return
 	}
 	fin := o.d.Inner()
